@@ -93,10 +93,11 @@ Proof. exact skip_line_body. Qed.
 Print Assumptions C13_scanner_sound.
 
 (* ---- extension: histories that also contain RENUM (accepted or rejected - a rejected one only moves
-   last_stored), SAVE + LOAD of the tokenised image and MERGE (model/Edit.v).  [inv c s] = there are lines ls
+   last_stored), SAVE + LOAD of the tokenised image (with Program.load's Out of memory test), MERGE and LOAD of an ASCII
+   file = erase + merge of every line of the file, however its last line is terminated (model/Edit.v).  [inv c s] = there are lines ls
    and a tail with abs_ok c s ls tail, all numbers < 65535, no 0E byte right behind the terminator.
    [xhist_ok] = every stored line has the tokeniser's shape with number <= 65534, RENUM arguments are two-byte
-   jump numbers, and a LOAD finds one byte of free program memory (Program.load has no memory check). *)
+   jump numbers. *)
 Theorem C13_ext_invariant : forall c ops, cfg_ok c -> xhist_ok c erase ops -> inv c (xrun c ops).
 Proof. exact xrun_inv. Qed.
 Print Assumptions C13_ext_invariant.
